@@ -119,7 +119,7 @@ pub mod verif_kani {
         ok
     }
     macro_rules! hash_harness {
-        ($name:ident, $stub:ident, $n:expr) => {
+        ($name:ident, $cex:ident, $stub:ident, $n:expr) => {
             /// contract of pin_to_bytes (proved by Verus) for PINs with exactly $n digits: the first $n bytes of the buffer hold arbitrary decimal digits
             fn $stub(_pin: u32, out: &mut [u8; 10]) -> &mut [u8] {
                 let mut i = 0; while i < $n { out[i] = DIGITS[i].load(Ordering::Relaxed); i += 1; }
@@ -131,15 +131,86 @@ pub mod verif_kani {
             #[kani::stub(crate::pin::pin_to_bytes, $stub)]
             #[kani::stub(crate::pin::remap_pin_grid, remap_stub)]
             pub fn $name() { assert!(hash_for::<$n>(), "C16 calculate_hash = SHA1(client salt | SHA1(server salt | ASCII(position of each digit in the layout)))"); }
+            #[kani::proof]
+            #[kani::unwind(66)]
+            #[kani::stub(sha1::compress::compress, compress_stub)]
+            #[kani::stub(crate::pin::pin_to_bytes, $stub)]
+            #[kani::stub(crate::pin::remap_pin_grid, remap_stub)]
+            pub fn $cex() { let ok = hash_for::<$n>(); kani::cover!(!ok, "counterexample"); }
         };
     }
-    hash_harness!(c16_hash_03, digits_stub_03, 3);
-    hash_harness!(c16_hash_04, digits_stub_04, 4);
-    hash_harness!(c16_hash_05, digits_stub_05, 5);
-    hash_harness!(c16_hash_06, digits_stub_06, 6);
-    hash_harness!(c16_hash_07, digits_stub_07, 7);
-    hash_harness!(c16_hash_08, digits_stub_08, 8);
-    hash_harness!(c16_hash_09, digits_stub_09, 9);
-    hash_harness!(c16_hash_10, digits_stub_10, 10);
-    hash_harness!(c16_hash_00, digits_stub_00, 0);
+    hash_harness!(c16_hash_03, c16_hash_03_cex, digits_stub_03, 3);
+    hash_harness!(c16_hash_04, c16_hash_04_cex, digits_stub_04, 4);
+    hash_harness!(c16_hash_05, c16_hash_05_cex, digits_stub_05, 5);
+    hash_harness!(c16_hash_06, c16_hash_06_cex, digits_stub_06, 6);
+    hash_harness!(c16_hash_07, c16_hash_07_cex, digits_stub_07, 7);
+    hash_harness!(c16_hash_08, c16_hash_08_cex, digits_stub_08, 8);
+    hash_harness!(c16_hash_09, c16_hash_09_cex, digits_stub_09, 9);
+    hash_harness!(c16_hash_10, c16_hash_10_cex, digits_stub_10, 10);
+    hash_harness!(c16_hash_00, c16_hash_00_cex, digits_stub_00, 0);
+}
+
+// Bounded native search for C16 (counterexample finder; and the bounded stand-in for "the layout depends on the seed modulo 10! only",
+// whose Kani formulation did not terminate)
+#[cfg(all(test, gtker_wow_srp_verif))]
+mod verif_search {
+    use super::*;
+    struct Rng(u64);
+    impl Rng { fn next(&mut self) -> u64 { self.0 ^= self.0 << 13; self.0 ^= self.0 >> 7; self.0 ^= self.0 << 17; self.0 } }
+    /// independent layout: draw without replacement from 0..9 using the seed as a mixed-radix number (radices 10, 9, .., 1)
+    fn ref_layout(mut seed: u32) -> [u8; 10] {
+        let mut pool: Vec<u8> = (0..10).collect();
+        let mut out = [0u8; 10];
+        for k in 0..10 { let m = 10 - k as u32; let r = (seed % m) as usize; seed /= m; out[k] = pool.remove(r); }
+        out
+    }
+    fn ref_hash(pin: u32, seed: u32, ss: &[u8; 16], cs: &[u8; 16]) -> Option<[u8; 20]> {
+        if pin < 1000 { return None; }
+        let layout = ref_layout(seed);
+        let digits: Vec<u8> = pin.to_string().bytes().map(|c| c - b'0').collect();
+        let ascii: Vec<u8> = digits.iter().map(|d| layout.iter().position(|x| x == d).unwrap() as u8 + 0x30).collect();
+        let inner: [u8; 20] = Sha1::new().chain_update(ss).chain_update(&ascii).finalize_fixed().into();
+        Some(Sha1::new().chain_update(cs).chain_update(inner).finalize_fixed().into())
+    }
+    #[test]
+    fn verif_search_c16_pin() {
+        let seed0 = std::env::var("VERIF_SEED").ok().and_then(|s| s.parse::<u64>().ok()).unwrap_or(0) ^ 0x9E3779B97F4A7C15;
+        let mut rng = Rng(seed0);
+        let mut n = 0u64;
+        const F: u32 = 3628800;
+        let mut seeds: Vec<u32> = (0..3000).collect();
+        for k in 1..=1183u32 { for d in [0u32, 1, F - 1] { seeds.push((k * F).wrapping_add(d)); seeds.push((k * F).wrapping_sub(d)); } }
+        seeds.extend([u32::MAX, u32::MAX - 1, F, F - 1, F + 1]);
+        for _ in 0..20000 { seeds.push(rng.next() as u32); }
+        for s in seeds.iter() {
+            n += 1;
+            let g = remap_pin_grid(*s);
+            let mut sorted = g; sorted.sort();
+            if sorted != [0, 1, 2, 3, 4, 5, 6, 7, 8, 9] { println!("REPLAY-FAIL c16_pin seed={} layout {:?} is not a permutation", s, g); return; }
+            if g != remap_pin_grid(*s % F) { println!("REPLAY-FAIL c16_pin seed={} layout differs from the layout of seed mod 10!", s); return; }
+            if g != ref_layout(*s) { println!("REPLAY-FAIL c16_pin seed={} layout {:?} differs from drawing without replacement {:?}", s, g, ref_layout(*s)); return; }
+        }
+        let pins = [0u32, 1, 9, 10, 99, 100, 999, 1000, 1001, 9999, 10000, 123456, 9999999, 10000000, 999999999, 1000000000, 4294967295, 1020304050, 4000000000];
+        for round in 0..400 {
+            let pin = if round < pins.len() * 4 { pins[round % pins.len()] } else { rng.next() as u32 };
+            let seed = rng.next() as u32;
+            let mut ss = [0u8; 16]; for x in ss.iter_mut() { *x = rng.next() as u8; }
+            let mut cs = [0u8; 16]; for x in cs.iter_mut() { *x = rng.next() as u8; }
+            n += 1;
+            let got = calculate_hash(pin, seed, &ss, &cs);
+            let want = ref_hash(pin, seed, &ss, &cs);
+            if got != want { println!("REPLAY-FAIL c16_pin calculate_hash pin={} seed={} got={:?} want={:?}", pin, seed, got.map(|h| h[0]), want.map(|h| h[0])); return; }
+            match want {
+                None => {
+                    for h in [[0u8; 20], [0xffu8; 20]] { if verify_client_pin_hash(pin, seed, &ss, &cs, &h) { println!("REPLAY-FAIL c16_pin verify accepted hash {:02x?} for pin {} which has no hash", &h[..2], pin); return; } }
+                }
+                Some(h) => {
+                    if !verify_client_pin_hash(pin, seed, &ss, &cs, &h) { println!("REPLAY-FAIL c16_pin verify rejected the correct hash pin={} seed={}", pin, seed); return; }
+                    let bit = (rng.next() % 160) as usize; let mut bad = h; bad[bit / 8] ^= 1 << (bit % 8);
+                    if verify_client_pin_hash(pin, seed, &ss, &cs, &bad) { println!("REPLAY-FAIL c16_pin verify accepted a hash with bit {} flipped pin={} seed={}", bit, pin, seed); return; }
+                }
+            }
+        }
+        println!("REPLAY-STATS c16_pin inputs={} all-ok", n);
+    }
 }
